@@ -3,6 +3,7 @@ package main
 import (
 	"fmt"
 	"go/ast"
+	"go/types"
 	"os"
 	"path/filepath"
 	"regexp"
@@ -30,7 +31,7 @@ func checkC16(c *Ctx) {
 	r.Trusted = []string{"the pigeon runtime embedded in peg.go interprets the table as PEG semantics prescribe"}
 	r.Rule("C16.X1", "the entry rule consumes the whole input: _ Expression _ !.", 2)
 	r.Rule("C16.X2", "all terminals lie inside the documented path alphabet", 6)
-	r.Rule("C16.X3", "a syntax error is returned as a non-nil error up to the profile parser", 4)
+	r.Rule("C16.X3", "a syntax error is returned as a non-nil error up to the profile parser", 2)
 	r.Rule("C16.X4", "no left recursion, no repetition of a nullable expression; grouping is transparent; operators admit whitespace", 4)
 	r.Rule("C16.X5", "third_party/propertyparser.peg and the generated table agree", 3)
 
@@ -333,6 +334,62 @@ func checkC16(c *Ctx) {
 		sort.Strings(stateful)
 		r.Check(len(stateful) == 0, "C16.X6", FuncKey(pathEntry), p.Pos(pathEntry.Pos()), fmt.Sprintf("%d hand-written functions in reach: none writes package-level state", len(pfuncs)), "package-level state is written while parsing a path, so whether and how a string is accepted can depend on earlier calls: "+strings.Join(stateful, "; "))
 	}
+
+	// ---- X7: the generated parser sees the caller's text itself. Any rewriting of the text before it is parsed changes the
+	// accepted language (strings.Fields / TrimSpace also remove U+0085, U+00A0 and the other Unicode spaces the grammar's
+	// whitespace rule does not admit; a replacement can turn a rejected operator into an accepted one).
+	r.Rule("C16.X7", "the text handed to the generated parser is the function's parameter, converted but not rewritten", 1)
+	if parseFn != nil {
+		sites := 0
+		for _, fn := range p.ModuleFuncs() {
+			if isGeneratedParserFunc(p, fn) || strings.HasSuffix(p.Fset.Position(fn.Pos()).Filename, "_test.go") {
+				continue
+			}
+			for _, b := range fn.Blocks {
+				for _, ins := range b.Instrs {
+					ci, ok := ins.(ssa.CallInstruction)
+					if !ok || ci.Common().StaticCallee() != parseFn {
+						continue
+					}
+					sites++
+					var textArg ssa.Value
+					for _, a := range ci.Common().Args {
+						if sl, ok := a.Type().Underlying().(*types.Slice); ok {
+							if bt, ok := sl.Elem().Underlying().(*types.Basic); ok && bt.Kind() == types.Uint8 {
+								textArg = a
+							}
+						}
+					}
+					origin := textArg
+					for origin != nil {
+						switch x := origin.(type) {
+						case *ssa.Convert:
+							origin = x.X
+							continue
+						case *ssa.ChangeType:
+							origin = x.X
+							continue
+						}
+						break
+					}
+					_, isParam := origin.(*ssa.Parameter)
+					what := "?"
+					if origin != nil {
+						what = origin.String()
+					}
+					r.Check(isParam, "C16.X7", FuncKey(fn)+"#parsed-text", p.Pos(ins.Pos()), "the parser is given the caller's string, converted to bytes", "the text handed to the generated parser is "+what+", not the caller's string: rewriting it first (collapsing, trimming, replacing) makes the parser accept strings the grammar rejects")
+				}
+			}
+		}
+		if sites == 0 {
+			r.Unknown("C16.X7", "parse-sites", "", "no call of the generated parser outside the generated file")
+		}
+	}
+
+	// ---- X8: the structure handed on is the one the grammar assigned: the tree builder keeps every operand of every
+	// sequence and alternative, in order, and copies the inverse flag (same analysis as C02.P2)
+	r.Rule("C16.X8", "the path value built from the parse result keeps every operand, in order, and the inverse flag", 4)
+	pathTreeBuilder(c, g, "C16.X8")
 
 	// ---- X5
 	c16SourceAgreement(c, g)
